@@ -1,11 +1,19 @@
 """Which units decide which property (DESIGN.md 7, appendix D.2)."""
-from . import api_ops, seam, walks, config, types_c17, pythonic, tables, wire_community, wire_v3
+from . import api_ops, seam, walks, config, types_c17, pythonic, tables, wire_community, wire_v3, udp
 
 VC = ("contract-based deductive verification: verification conditions generated on every run from the real ASTs "
       "(symbolic execution of each function against its sidecar contract, callee contracts at the seams) and "
       "discharged by z3 (cvc5 for z3-unknowns); ")
 
 PROPS = {
+    "C13": {
+        "units": [udp.units], "level": "other", "design_ref": "7.13",
+        "technique": VC + "send_udp's retry loop by an inductive invariant over ghost counters (attempts, open transports, timeouts "
+                     "waited) with the real SNMPClientProtocol callbacks executed inside; asyncio is an environment model that "
+                     "chooses each attempt's outcome (reply, second reply, no reply, ICMP error, connection lost)",
+        "trusted_base": ["asyncio datagram endpoint / wait_for / future model (contracts/udp.py); callbacks only reach an open "
+                         "transport", "real loopback sockets and real time are observed only by the replay/stand-in, not proved"],
+    },
     "C09": {
         "units": [wire_v3.units_rx], "level": "other", "design_ref": "7.9",
         "technique": VC + "V3MPM.decode and the USM incoming path executed on an ARBITRARY well-formed SNMPv3 message (all leaves "
